@@ -100,6 +100,31 @@ def build_cli():
     return os.path.join(CLI_DIR, "release")
 
 
+def build_mecabsd():
+    """Builds /repo/examples/mecab_smalldic (excluded from the workspace, no lock file) through the
+    wrapper crate harness/mecabsd: its main.rs is copied from /repo first, nothing is written under /repo."""
+    src = "/repo/examples/mecab_smalldic/src/main.rs"
+    dst = os.path.join(HARNESS, "mecabsd", "src", "main.rs")
+    os.makedirs(os.path.dirname(dst), exist_ok=True)
+    lock = open(os.path.join(WORK, "build.lock"), "w")
+    fcntl.flock(lock, fcntl.LOCK_EX)
+    try:
+        new = open(src).read()
+        if not os.path.exists(dst) or open(dst).read() != new:
+            open(dst, "w").write(new)
+        env = dict(os.environ)
+        env["CARGO_NET_OFFLINE"] = "true"
+        p = subprocess.run(["cargo", "build", "--release", "--offline"], cwd=os.path.join(HARNESS, "mecabsd"), env=env,
+                           stdout=subprocess.PIPE, stderr=subprocess.STDOUT, text=True)
+        if p.returncode != 0:
+            log(p.stdout[-3000:])
+            raise ToolError("building examples/mecab_smalldic failed")
+    finally:
+        fcntl.flock(lock, fcntl.LOCK_UN)
+        lock.close()
+    return os.path.join(CLI_DIR, "release")
+
+
 def cpu_has_avx2():
     try:
         return " avx2" in open("/proc/cpuinfo").read()
